@@ -1,8 +1,10 @@
 (* C01 — Exp is the matrix exponential on so3, se3, rxso3, sim3.  Statements only (over R);
-   proofs in Proofs/LieExp.v.  [eps] is the dtype's machine epsilon (any 0 <= eps <= 2^-10). *)
+   proofs in Proofs/LieExp.v, ExpODE.v, ExpODE2.v, ExpODE3.v (closed-form branches), ExpODE4.v (degenerate
+   generators, every-generator uniqueness, mixed regime), ExpTaylor.v (Taylor branches, distance to the exponential,
+   the condition3 defect of rxso3_Ws).  [eps] is the dtype's machine epsilon (any 0 <= eps <= 2^-10). *)
 From Coq Require Import Reals List Lra.
 From Coquelicot Require Import Coquelicot.
-From PV Require Import Base.Num Model.LieGroup Model.LieExp Proofs.LieGroup Proofs.LieExp Proofs.ExpODE Proofs.ExpODE2 Proofs.ExpODE3.
+From PV Require Import Base.Num Model.LieGroup Model.LieExp Proofs.LieGroup Proofs.LieExp Proofs.ExpODE Proofs.ExpODE2 Proofs.ExpODE3 Proofs.ExpODE4 Proofs.ExpTaylor.
 Local Open Scope R_scope.
 #[local] Remove Hints NumQ NumZ : typeclass_instances.
 
@@ -78,8 +80,234 @@ Proof.
   apply sim3_exponential; [pose proof (vnorm_nonneg phi); lra | intros ->; rewrite Rabs_R0 in Hs; lra | split; reflexivity].
 Qed.
 
+(* ======================= degenerate generators: phi = 0 and / or sigma = 0 ======================= *)
+(* phi = 0 (so3, rxso3): the exponential is I resp. exp(sigma) I; existence and uniqueness *)
+Theorem C01_so3_exponential_zero_rotation : forall (E : @mat3 R), is_mexp_so3 vzero E <-> E = mid3.
+Proof. exact so3_zero_exponential. Qed.
+Theorem C01_rxso3_exponential_zero_rotation : forall (sg : R) (E : @mat3 R),
+  is_mexp_rxso3 vzero sg E <-> E = mscale3 (exp sg) mid3.
+Proof. exact rxso3_zero_exponential. Qed.
+(* phi = 0 (se3): E = I, p = tau *)
+Theorem C01_se3_exponential_zero_rotation : forall (tau : vec3R) (E : @mat3 R) (p : vec3R),
+  is_mexp_se3 tau vzero E p <-> E = mid3 /\ p = tau.
+Proof. exact se3_zero_exponential. Qed.
+(* phi = 0 (sim3): E = exp(sigma) I, p = ((exp sigma - 1)/sigma) tau for sigma <> 0 and p = tau for sigma = 0 *)
+Theorem C01_sim3_exponential_zero_rotation : forall (tau : vec3R) (sg : R) (E : @mat3 R) (p : vec3R),
+  (sg <> 0 -> (is_mexp_sim3 tau vzero sg E p <-> E = mscale3 (exp sg) mid3 /\ p = vscale ((exp sg - 1) / sg) tau)) /\
+  (is_mexp_sim3 tau vzero 0 E p <-> E = mid3 /\ p = tau).
+Proof.
+  intros tau sg E p. split; [intros H; rewrite <- (Cex_nz sg H); apply sim3_zero_rotation_exponential|].
+  rewrite sim3_zero_rotation_exponential, Cex_0, exp_0, mscale3_one, vscale_one. reflexivity.
+Qed.
+(* sigma = 0 (any phi): the sim3 / rxso3 initial value problems are the se3 / so3 ones *)
+Theorem C01_sim3_exponential_zero_scale_is_se3 : forall (tau phi : vec3R) (E : @mat3 R) (p : vec3R),
+  is_mexp_sim3 tau phi 0 E p <-> is_mexp_se3 tau phi E p.
+Proof. exact sim3_sigma0_is_se3. Qed.
+Theorem C01_rxso3_exponential_zero_scale_is_so3 : forall (phi : vec3R) (E : @mat3 R),
+  is_mexp_rxso3 phi 0 E <-> is_mexp_so3 phi E.
+Proof. exact rxso3_sigma0_is_so3. Qed.
+
+(* hence the exponential of EVERY generator, in closed form by cases (no hypothesis on phi, sigma):
+   rotation block  R(phi) = I if |phi| = 0, Rodrigues otherwise;  translation matrix  W(phi, sigma) =
+   Cex(sigma) I if |phi| = 0 (Cex 0 = 1, Cex sigma = (exp sigma - 1)/sigma), V1 phi if sigma = 0, Ws1 phi sigma otherwise *)
+Theorem C01_so3_exponential_every_generator : forall (x : vec3R) (E : @mat3 R),
+  is_mexp_so3 x E <-> E = (if Req_EM_T (vnorm x) 0 then mid3 else rodrigues x).
+Proof. exact so3_exponential_total. Qed.
+Theorem C01_rxso3_exponential_every_generator : forall (x : vec3R) (sg : R) (E : @mat3 R),
+  is_mexp_rxso3 x sg E <-> E = mscale3 (exp sg) (if Req_EM_T (vnorm x) 0 then mid3 else rodrigues x).
+Proof. exact rxso3_exponential_total. Qed.
+Theorem C01_se3_exponential_every_generator : forall (tau phi : vec3R) (E : @mat3 R) (p : vec3R),
+  is_mexp_se3 tau phi E p <->
+  E = (if Req_EM_T (vnorm phi) 0 then mid3 else rodrigues phi) /\
+  p = mvmul (if Req_EM_T (vnorm phi) 0 then mid3 else V1 phi) tau.
+Proof.
+  intros tau phi E p. rewrite se3_exponential_total. unfold mexp_so3, mexp_Vmat.
+  destruct (Req_EM_T (vnorm phi) 0); [rewrite Cex_0, mscale3_one; reflexivity|].
+  destruct (Req_EM_T 0 0) as [_|Hc]; [reflexivity | contradiction].
+Qed.
+Theorem C01_sim3_exponential_every_generator : forall (tau phi : vec3R) (sg : R) (E : @mat3 R) (p : vec3R),
+  is_mexp_sim3 tau phi sg E p <->
+  E = mscale3 (exp sg) (if Req_EM_T (vnorm phi) 0 then mid3 else rodrigues phi) /\
+  p = mvmul (if Req_EM_T (vnorm phi) 0 then mscale3 (if Req_EM_T sg 0 then 1 else (exp sg - 1) / sg) mid3
+             else if Req_EM_T sg 0 then V1 phi else Ws1 phi sg) tau.
+Proof. exact sim3_exponential_total. Qed.
+(* existence and uniqueness without any hypothesis on the generator *)
+Theorem C01_so3_exponential_exists_unique : forall (x : vec3R), exists! E : @mat3 R, is_mexp_so3 x E.
+Proof. exact so3_exponential_exists_unique. Qed.
+Theorem C01_rxso3_exponential_exists_unique : forall (x : vec3R) (sg : R), exists! E : @mat3 R, is_mexp_rxso3 x sg E.
+Proof. exact rxso3_exponential_exists_unique. Qed.
+Theorem C01_se3_exponential_exists_unique : forall (tau phi : vec3R),
+  exists! Ep : @mat3 R * vec3R, is_mexp_se3 tau phi (fst Ep) (snd Ep).
+Proof. exact se3_exponential_exists_unique. Qed.
+Theorem C01_sim3_exponential_exists_unique : forall (tau phi : vec3R) (sg : R),
+  exists! Ep : @mat3 R * vec3R, is_mexp_sim3 tau phi sg (fst Ep) (snd Ep).
+Proof. exact sim3_exponential_exists_unique. Qed.
+
+(* what the model returns at phi = 0 (the Taylor branch at theta = 0): the identity quaternion, Jl = I, Ws = C I;
+   the library's matrix of the modelled Exp IS the exponential there *)
+Theorem C01_so3_exp_at_zero_is_matrix_exponential : forall (eps : R) (x : vec3R) (E : @mat3 R), 0 <= eps -> vnorm x = 0 ->
+  so3_exp eps x = SO3_id /\ so3_Jl eps x = mid3 /\ (is_mexp_so3 x E <-> E = SO3_matrix (so3_exp eps x)).
+Proof.
+  intros eps x E He H. split; [now apply so3_exp_zero|]. split; [now apply so3_Jl_zero|].
+  rewrite so3_exp_matrix_zero by assumption. rewrite (vnorm_zero x H). apply so3_zero_exponential.
+Qed.
+Theorem C01_se3_exp_at_zero_rotation_is_matrix_exponential : forall (eps : R) (tau phi : vec3R), 0 <= eps -> vnorm phi = 0 ->
+  matrix4 SE3_act4 (se3_exp eps (tau, phi)) = block4 mid3 tau /\ is_mexp_se3 tau phi mid3 tau.
+Proof.
+  intros eps tau phi He H. split; [now apply se3_exp_matrix_zero|].
+  rewrite (vnorm_zero phi H). apply se3_zero_exponential. split; reflexivity.
+Qed.
+Theorem C01_rxso3_exp_at_zero_rotation_is_matrix_exponential : forall (eps : R) (phi : vec3R) (sg : R) (E : @mat3 R),
+  0 <= eps -> vnorm phi = 0 -> (is_mexp_rxso3 phi sg E <-> E = RxSO3_matrix (rxso3_exp eps (phi, sg))).
+Proof.
+  intros eps phi sg E He H. rewrite rxso3_exp_matrix_zero by assumption. rewrite (vnorm_zero phi H). apply rxso3_zero_exponential.
+Qed.
+(* sim3 at phi = 0: exact for sigma = 0 and for |sigma| > eps (for 0 < |sigma| <= eps the model uses C = 1: see
+   C01_sim3_exp_translation_close) *)
+Theorem C01_sim3_exp_at_zero_rotation_is_matrix_exponential : forall (eps : R) (tau phi : vec3R) (sg : R),
+  0 <= eps -> vnorm phi = 0 -> sg = 0 \/ eps < Rabs sg ->
+  matrix4 Sim3_act4 (sim3_exp eps (tau, (phi, sg))) = block4 (mscale3 (exp sg) mid3) (vscale (Cex sg) tau) /\
+  is_mexp_sim3 tau phi sg (mscale3 (exp sg) mid3) (vscale (Cex sg) tau).
+Proof.
+  intros eps tau phi sg He H Hs. split; [rewrite sim3_exp_matrix_zero, Ws_C_model_exact by assumption; reflexivity|].
+  rewrite (vnorm_zero phi H). apply sim3_zero_rotation_exponential. split; reflexivity.
+Qed.
+
+(* ======================= mixed regime |sigma| <= eps < theta of rxso3_Ws ======================= *)
+(* the code uses the se3 coefficients: Ws = V1 exactly, i.e. the translation of the modelled sim3 Exp is that of the
+   exponential of the generator with sigma replaced by 0 (the scale block still uses exp sigma) ... *)
+Theorem C01_sim3_exp_small_sigma_uses_se3_translation : forall (eps : R) (tau phi : vec3R) (sg : R),
+  0 <= eps -> eps < vnorm phi -> Rabs sg <= eps ->
+  rxso3_Ws eps (phi, sg) = V1 phi /\
+  matrix4 Sim3_act4 (sim3_exp eps (tau, (phi, sg))) = block4 (mscale3 (exp sg) (rodrigues phi)) (mvmul (V1 phi) tau) /\
+  is_mexp_sim3 tau phi 0 (rodrigues phi) (mvmul (V1 phi) tau).
+Proof.
+  intros eps tau phi sg He H Hs. split; [now apply rxso3_Ws_small_sigma|]. split; [now apply sim3_exp_matrix_small_sigma|].
+  apply sim3_sigma0_is_se3. apply se3_exponential; [pose proof (vnorm_nonneg phi); lra | split; reflexivity].
+Qed.
+(* ... and every entry of it is within 8|sigma| of the true translation matrix W(phi, sigma), for every angle *)
+Theorem C01_sim3_Ws_small_sigma_close : forall (eps : R) (phi : vec3R) (sg : R),
+  0 <= eps -> eps < vnorm phi -> Rabs sg <= eps -> eps <= 1/2 ->
+  forall i j, (i < 3)%nat -> (j < 3)%nat ->
+  Rabs (m3get (rxso3_Ws eps (phi, sg)) i j - m3get (mexp_Vmat phi sg) i j) <= 8 * Rabs sg.
+Proof. exact rxso3_Ws_small_sigma_close. Qed.
+
+(* ======================= regime theta <= eps < |sigma| (condition3 of rxso3_Ws): a defect ======================= *)
+(* at theta = 0 it is exact (above).  For 0 < theta <= eps the model is  A3 K + B3c K^2 + C I  with the code's
+   B3c = (sigma^2 e^sigma/2 + e^sigma - 1 - sigma^2 e^sigma)/sigma^3; the part A3 K + C I is within
+   exp|sigma| (theta^3/6 + theta^2/2) of the exponential, so the error of the model IS B3c K^2 up to that ... *)
+Theorem C01_sim3_Ws_small_angle_large_sigma_error : forall (eps : R) (phi : vec3R) (sg : R),
+  0 < vnorm phi <= eps -> eps < Rabs sg -> eps <= 1 ->
+  forall i j, (i < 3)%nat -> (j < 3)%nat ->
+  Rabs (m3get (rxso3_Ws eps (phi, sg)) i j - m3get (mexp_Vmat phi sg) i j - B3c sg * m3get (mmul3 (skew phi) (skew phi)) i j)
+    <= exp (Rabs sg) * ((vnorm phi)^3 / 6 + (vnorm phi)^2 / 2).
+Proof. exact rxso3_Ws_regime3_error. Qed.
+(* ... and B3c is not small: B3c sigma^2 >= 1/2 for 0 < |sigma| <= 1/8 (the true coefficient tends to 1/6), so the
+   translation error is of relative size (theta/sigma)^2 / 2 or more *)
+Theorem C01_sim3_Ws_condition3_B_coefficient_large : forall sg : R, sg <> 0 -> Rabs sg <= 1/8 ->
+  1/2 <= B3c sg * (sg * sg).
+Proof. exact B3c_large. Qed.
+(* a concrete failing input in exact real arithmetic, for the eps of float64 and of float32: phi = (eps,0,0),
+   sigma = 2 eps, tau = (0,1,0): the y-component of the translation of the modelled Exp differs from that of the
+   matrix exponential (~1) by more than 1/5.  The clause "Exp is the matrix exponential within sqrt(eps)" is FALSE of
+   the faithful model in this regime *)
+Theorem C01_sim3_exp_small_angle_large_sigma_refuted : forall eps : R, eps = / 2^52 \/ eps = / 2^23 ->
+  exists (tau phi : vec3R) (sg : R), vnorm phi <= eps /\ eps < Rabs sg /\
+    forall (E : @mat3 R) (p : vec3R), is_mexp_sim3 tau phi sg E p ->
+      Rabs (vc 1 (fst (sim3_exp eps (tau, (phi, sg)))) - vc 1 p) > 1/5.
+Proof. exact sim3_regime3_refuted. Qed.
+
+(* ======================= Taylor branches: coefficient bounds ======================= *)
+Theorem C01_so3_exp_coef_taylor_close : forall (eps th : R), 0 < th <= eps -> eps <= 1 ->
+  Rabs (fst (so3_exp_coef eps th) - sin (th / 2) / th) <= th ^ 6 / 645120 /\
+  Rabs (snd (so3_exp_coef eps th) - cos (th / 2)) <= th ^ 6 / 46080.
+Proof. exact so3_exp_coef_taylor_close. Qed.
+Theorem C01_so3_Jl_coef_taylor_close : forall (eps th : R), 0 < th <= eps -> eps <= 1 ->
+  Rabs (fst (so3_Jl_coef eps th) - (1 - cos th) / (th * th)) <= th ^ 4 / 720 /\
+  Rabs (snd (so3_Jl_coef eps th) - (th - sin th) / (th * (th * th))) <= th ^ 4 / 5040.
+Proof. exact so3_Jl_coef_taylor_close. Qed.
+(* rxso3_Ws with theta <= eps and |sigma| <= eps: the constants 1/2, 1/6, 1 against the closed-form coefficients
+   At, Bt, Cs (at t = 1) of the true translation matrix Ws1 *)
+Theorem C01_rxso3_Ws_coef_taylor_close : forall (eps th sg : R), 0 < th <= eps -> sg <> 0 -> Rabs sg <= eps -> eps <= 1/2 ->
+  let c := rxso3_Ws_coef eps th sg in
+  Rabs (fst (fst c) - At sg th 1) <= 2 * Rabs sg + th * th / 6 /\
+  Rabs (snd (fst c) - Bt sg th 1) <= Rabs sg + th * th / 24 /\
+  Rabs (snd c - Cs sg 1) <= 2 * Rabs sg.
+Proof. exact rxso3_Ws_coef_taylor_close. Qed.
+
+(* ======================= distance of the modelled Exp to THE exponential, every generator ======================= *)
+(* (E resp. (E, p) is the unique exponential of the generator, see the exists_unique theorems; the 4x4 matrix of the
+   modelled Exp is block4 (s R) t by SE3_matrix_blocks / Sim3_matrix_blocks, its last row is exact.)
+   so3: 0 above eps and at 0, at most theta^7/3000 on the Taylor branch *)
+Theorem C01_so3_exp_close_to_exponential : forall (eps : R) (x : vec3R) (E : @mat3 R), 0 <= eps <= 1 -> is_mexp_so3 x E ->
+  forall i j, (i < 3)%nat -> (j < 3)%nat ->
+  Rabs (m3get (SO3_matrix (so3_exp eps x)) i j - m3get E i j) <= (Rmin (vnorm x) eps) ^ 7 / 3000.
+Proof. exact so3_exp_close_to_exponential. Qed.
+Theorem C01_rxso3_exp_close_to_exponential : forall (eps : R) (phi : vec3R) (sg : R) (E : @mat3 R), 0 <= eps <= 1 ->
+  is_mexp_rxso3 phi sg E ->
+  forall i j, (i < 3)%nat -> (j < 3)%nat ->
+  Rabs (m3get (RxSO3_matrix (rxso3_exp eps (phi, sg))) i j - m3get E i j) <= exp sg * ((Rmin (vnorm phi) eps) ^ 7 / 3000).
+Proof. exact rxso3_exp_close_to_exponential. Qed.
+(* se3: rotation block as so3, translation within min(theta,eps)^5/600 |tau|_1 *)
+Theorem C01_se3_exp_close_to_exponential : forall (eps : R) (tau phi : vec3R) (E : @mat3 R) (p : vec3R), 0 <= eps <= 1 ->
+  is_mexp_se3 tau phi E p ->
+  (forall i j, (i < 3)%nat -> (j < 3)%nat ->
+     Rabs (m3get (SO3_matrix (snd (se3_exp eps (tau, phi)))) i j - m3get E i j) <= (Rmin (vnorm phi) eps) ^ 7 / 3000) /\
+  (forall i, (i < 3)%nat ->
+     Rabs (vc i (fst (se3_exp eps (tau, phi))) - vc i p) <= (Rmin (vnorm phi) eps) ^ 5 / 600 * norm1 tau).
+Proof. exact se3_exp_close_to_exponential. Qed.
+(* sim3: rotation-scale block as rxso3; translation: |sigma| <= eps (any angle) within (8|sigma| + min(theta,eps)^3/5)|tau|_1,
+   |sigma| > eps with theta = 0 or theta > eps exact; the remaining regime 0 < theta <= eps < |sigma| is the defect above *)
+Theorem C01_sim3_exp_rotation_close : forall (eps : R) (tau phi : vec3R) (sg : R) (E : @mat3 R) (p : vec3R), 0 <= eps <= 1 ->
+  is_mexp_sim3 tau phi sg E p ->
+  forall i j, (i < 3)%nat -> (j < 3)%nat ->
+  Rabs (m3get (RxSO3_matrix (snd (sim3_exp eps (tau, (phi, sg))))) i j - m3get E i j) <= exp sg * ((Rmin (vnorm phi) eps) ^ 7 / 3000).
+Proof. exact sim3_exp_rotation_close. Qed.
+Theorem C01_sim3_exp_translation_close : forall (eps : R) (tau phi : vec3R) (sg : R) (E : @mat3 R) (p : vec3R),
+  0 <= eps <= 1/4 -> Rabs sg <= eps -> is_mexp_sim3 tau phi sg E p ->
+  forall i, (i < 3)%nat ->
+  Rabs (vc i (fst (sim3_exp eps (tau, (phi, sg)))) - vc i p) <= (8 * Rabs sg + (Rmin (vnorm phi) eps) ^ 3 / 5) * norm1 tau.
+Proof. exact sim3_exp_translation_close. Qed.
+Theorem C01_sim3_exp_translation_exact : forall (eps : R) (tau phi : vec3R) (sg : R) (E : @mat3 R) (p : vec3R),
+  0 <= eps -> eps < Rabs sg -> vnorm phi = 0 \/ eps < vnorm phi -> is_mexp_sim3 tau phi sg E p ->
+  fst (sim3_exp eps (tau, (phi, sg))) = p.
+Proof. exact sim3_exp_translation_exact. Qed.
+
+
 Print Assumptions C01_rxso3_exponential_unique. Print Assumptions C01_rxso3_exp_is_matrix_exponential.
 Print Assumptions C01_sim3_exponential_unique. Print Assumptions C01_sim3_exp_is_matrix_exponential.
 Print Assumptions C01_se3_exponential_unique. Print Assumptions C01_se3_exp_is_matrix_exponential.
 Print Assumptions C01_so3_exp_unit_closed_form. Print Assumptions C01_so3_exp_unit_taylor.
 Print Assumptions C01_so3_matrix_is_rodrigues. Print Assumptions C01_rodrigues_is_the_matrix_exponential. Print Assumptions C01_so3_exp_is_matrix_exponential.
+Print Assumptions C01_so3_exponential_zero_rotation.
+Print Assumptions C01_rxso3_exponential_zero_rotation.
+Print Assumptions C01_se3_exponential_zero_rotation.
+Print Assumptions C01_sim3_exponential_zero_rotation.
+Print Assumptions C01_sim3_exponential_zero_scale_is_se3.
+Print Assumptions C01_rxso3_exponential_zero_scale_is_so3.
+Print Assumptions C01_so3_exponential_every_generator.
+Print Assumptions C01_rxso3_exponential_every_generator.
+Print Assumptions C01_se3_exponential_every_generator.
+Print Assumptions C01_sim3_exponential_every_generator.
+Print Assumptions C01_so3_exponential_exists_unique.
+Print Assumptions C01_rxso3_exponential_exists_unique.
+Print Assumptions C01_se3_exponential_exists_unique.
+Print Assumptions C01_sim3_exponential_exists_unique.
+Print Assumptions C01_so3_exp_at_zero_is_matrix_exponential.
+Print Assumptions C01_se3_exp_at_zero_rotation_is_matrix_exponential.
+Print Assumptions C01_rxso3_exp_at_zero_rotation_is_matrix_exponential.
+Print Assumptions C01_sim3_exp_at_zero_rotation_is_matrix_exponential.
+Print Assumptions C01_sim3_exp_small_sigma_uses_se3_translation.
+Print Assumptions C01_sim3_Ws_small_sigma_close.
+Print Assumptions C01_sim3_Ws_small_angle_large_sigma_error.
+Print Assumptions C01_sim3_Ws_condition3_B_coefficient_large.
+Print Assumptions C01_sim3_exp_small_angle_large_sigma_refuted.
+Print Assumptions C01_so3_exp_coef_taylor_close.
+Print Assumptions C01_so3_Jl_coef_taylor_close.
+Print Assumptions C01_rxso3_Ws_coef_taylor_close.
+Print Assumptions C01_so3_exp_close_to_exponential.
+Print Assumptions C01_rxso3_exp_close_to_exponential.
+Print Assumptions C01_se3_exp_close_to_exponential.
+Print Assumptions C01_sim3_exp_rotation_close.
+Print Assumptions C01_sim3_exp_translation_close.
+Print Assumptions C01_sim3_exp_translation_exact.
